@@ -74,6 +74,10 @@ META = {
              "sense/intersection self-consistency with an oracle built from the documented parametrisation."),
     "note": ("Trusts: x87 long double (64-bit mantissa) as reference arithmetic; the rounding model constants "
              "(KT=64 eps, documented in the harness header); g++ -O2 without -ffast-math so that the library "
-             "code is IEEE. Found on the unchanged tree: SurfaceTranslator(SimpleQuadric) constant term, "
-             "SurfaceTranslator(Involute) clockwise displacement angle, InvoluteSolver missed crossings."),
+             "code is IEEE. Found on the original tree: SurfaceTranslator(SimpleQuadric) constant term "
+             "(repaired, /repo ab1a0ba), SurfaceTranslator(Involute) clockwise displacement angle and "
+             "InvoluteSolver missed crossings (known_findings.json; signatures "
+             "involute:translated-surface-has-different-point-set / involute:missed-nearer-crossing are "
+             "reserved for exactly these causes, any other involute inconsistency gets its own signature). "
+             "Standalone reproduction: harness/c12_repro_defects.cc."),
 }
